@@ -999,7 +999,9 @@ static size_t _GD_DoLincom(DIRFILE *restrict D, gd_entry_t *restrict E,
   }
 
   /* Compute everything at once */
-  if (E->flags & GD_EN_COMPSCAL)
+  /* the inputs were read as complex data if the caller wants complex data:
+   * combine them as such (cm and cb always hold the scalars, real or not) */
+  if ((E->flags & GD_EN_COMPSCAL) || (ntype & GD_COMPLEX))
     _GD_CLincomData(D, E->EN(lincom,n_fields), data_out, return_type,
         (GD_DCOMPLEXP_t)tmpbuf2, (GD_DCOMPLEXP_t)tmpbuf3, E->EN(lincom,cm),
         E->EN(lincom,cb), spf, n_read);
